@@ -432,6 +432,7 @@ def standard_check(mod, tier, seed, replay=None):
                 finish(res, mod.ASSUMPTIONS, mod.RULE)
                 sys.exit(2)
         nviol = 0
+        n_prop_listed = n_corr_listed = 0
         active_known = set()
         for e in load_known(mod.PROP):
             if e.get('status') == 'known':
@@ -469,7 +470,13 @@ def standard_check(mod, tier, seed, replay=None):
             if pv is None and not disagree:
                 continue
             nviol += 1
-            if nviol <= 5:
+            # up to 5 property failures (with failing input) and up to 3 correspondence-only breaks are listed, so that an
+            # early batch of model differences cannot crowd out the failing inputs
+            if pv is not None:
+                n_prop_listed += 1
+            else:
+                n_corr_listed += 1
+            if (pv is not None and n_prop_listed <= 5) or (pv is None and n_corr_listed <= 3):
                 if pv is not None:
                     failing_input_found = True
                     violation(res, 'property fails on the implementation: ' + pv,
@@ -480,8 +487,9 @@ def standard_check(mod, tier, seed, replay=None):
                                    'finds no failing input here): kind=%s' % c.kind,
                               {'cases': [{'kind': c.kind, 'req': c.req}], 'impl': io, 'model': mo,
                                'obligation': 'correspondence %s/%s' % (mod.PROP, c.kind)}, has_input=False)
-        if nviol > 5:
-            res.notes.append('%d further disagreements not listed' % (nviol - 5))
+        listed = min(n_prop_listed, 5) + min(n_corr_listed, 3)
+        if nviol > listed:
+            res.notes.append('%d further disagreements not listed' % (nviol - listed))
 
     # 2b. extraction cross-check: a sample of the extracted model's answers is re-proved inside Coq by vm_compute
     if exe and cases and hasattr(mod, 'golden') and proof_ok:
